@@ -116,6 +116,7 @@ class Analyzer:
         for f in self.fns:
             self.by_name.setdefault(f.name, []).append(f)
         self.summary = {f.qual: NEVER for f in self.fns}
+        self.cur_fn = None
         self.summary_under = {}  # (qual, pred) -> summary when the peeked character satisfies pred and the input is non-empty
         self.preds = set()
         for f in self.fns:
@@ -144,6 +145,11 @@ class Analyzer:
                 if cands:
                     return self.worst([self.summary.get(f.qual, NEVER) for f in cands])
                 return None
+            if m in ("find_map", "and_then", "map_while") and len(n["args"]) == 1 and n["args"][0].get("k") == "closure" and \
+                    any(x.get("k") == "path" and len(x["segs"]) == 1 and x["segs"][0] in cfg.cursor_names for x in sir.walk(n["args"][0]["body"])):
+                # Some(..) comes from an invocation of the closure that returned Some
+                cs_ = self.closure_summary(n["args"][0])
+                return IF_SOME if base(cs_) in (ALWAYS, IF_SOME) else NEVER
             if any(self.is_cursor_arg(a) for a in n["args"]):
                 cands = self.by_name.get(m, [])
                 if cands:
@@ -158,6 +164,17 @@ class Analyzer:
                 return NEVER
             name = f["segs"][-1]
             cands = self.by_name.get(name, [])
+            if not cands and len(f["segs"]) == 1 and self.cur_fn is not None:
+                # a call through a local (`probe(ps)` with `probe` taken from a table of functions): the functions of the crate
+                # that the enclosing function names as values are the possible callees
+                called = set(id(x["f"]) for x in sir.walk(self.cur_fn.node, into_items=True) if x.get("k") == "call")
+                vals = []
+                for x in sir.walk(self.cur_fn.node, into_items=True):
+                    if x.get("k") == "path" and id(x) not in called and len(x["segs"]) >= 2:
+                        cs_ = [c for c in self.by_name.get(x["segs"][-1].replace("r#", ""), []) if self.takes_cursor(c) and (c.base == x["segs"][-2] or x["segs"][-2] == "Self")]
+                        vals += cs_
+                if vals:
+                    return self.worst([self.summary.get(c.qual, NEVER) for c in vals])
             if len(f["segs"]) >= 2 and cands:
                 b = f["segs"][-2]
                 exact = [c for c in cands if c.base == b or b == "Self"]
@@ -205,7 +222,10 @@ class Analyzer:
 
     def closure_summary(self, clo):
         fl = Flow()
-        self._flow(clo["body"], [St()], fl)
+        if clo["body"].get("k") == "block":
+            self._flow(clo["body"], [St()], fl)
+        else:
+            fl.fall = self.flow_value(clo["body"], [St()], fl, "@ret")
         somes, nones = self.split_value(clo["body"], fl.fall)
         somes += fl.ret_some
         nones += fl.ret_none
@@ -232,6 +252,7 @@ class Analyzer:
             for f in self.fns:
                 if not self.takes_cursor(f):
                     continue
+                self.cur_fn = f
                 for pr in sorted(self.guard_preds_used()):
                     fl3 = Flow()
                     self._flow(f.body, [St(False, True, (("@" + pr, "some"),))], fl3)
@@ -249,6 +270,7 @@ class Analyzer:
                 break
 
     def summarise(self, f):
+        self.cur_fn = f
         fl = Flow()
         self._flow(f.body, [St()], fl)
         somes, nones = self.split_value(f.body, fl.fall)
@@ -887,6 +909,7 @@ class Analyzer:
                 continue
             # states with which each loop is entered (context of the enclosing function; closures are inlined by the wrappers)
             self._record = {}
+            self.cur_fn = f
             fl0 = Flow()
             self._flow(f.body, [St()], fl0)
             for clo in sir.walk(f.body):
